@@ -541,6 +541,10 @@ func main() {
 	nameLegs(r)
 	// the empty member name, members whose own replicas collide, members colliding with replicas of "" (legs4.go)
 	collisionLegs(r)
+	// a big ring drained to one member and regrown (legs5.go)
+	if !r.Failed() {
+		drainLegs(r)
+	}
 	if r.Search {
 		if r.Failed() {
 			r.Note("search legs not run: the thorough generators already produced a failing input")
